@@ -239,6 +239,10 @@ def discharge(P, s):
                             op = R._NEG[op]
                         if op == "Le" and _is_len_minus(y, buf, st) and _is_sum_of(en, st, x):
                             return ("len-guard", "dominated by L <= len(buf) - n for the slice buf[n..n+L]")
+    if k in ("call:index", "call:split_at") and site is not None and len(site.args) == 2:
+        r = _slice_in_bounds(ev, site, lits)
+        if r:
+            return r
     if k == "call:copy_from_slice" and site is not None and len(site.args) == 2:
         dst = strip_sites(site.args[0])
         src = strip_sites(site.args[1])
@@ -491,6 +495,131 @@ def _param_is_len(P, fn, idx):
         if not ((a.op == "call" and B.cname(a) in ("slice::<impl [T]>::len", "Vec::<T, A>::len")) or a.op == "len"):
             return False
     return True
+
+
+def _lin_add(a, b):
+    d = dict(a[1])
+    for k, v in b[1].items():
+        d[k] = d.get(k, 0) + v
+        if d[k] == 0:
+            del d[k]
+    return (a[0] + b[0], d)
+
+
+def prove_le0(goal, facts, depth=3):
+    """goal, facts: linear forms (const, {atom: coef}); facts are known to be <= 0.  Is goal <= 0 a consequence
+    (a sum of at most `depth` facts, each atom being a non-negative quantity)?"""
+    if goal is None:
+        return False
+    atoms = set(goal[1])
+    for f in facts:
+        atoms |= set(f[1])
+    base = list(facts) + [(0, {a: -1}) for a in atoms]
+
+    def covers(total):
+        # goal <= total when the atom parts agree and goal's constant is not larger
+        return total[1] == goal[1] and goal[0] <= total[0]
+
+    if not goal[1] and goal[0] <= 0:
+        return True
+    frontier = [(0, {})]
+    for _ in range(depth):
+        nxt = []
+        for cur in frontier:
+            for f in base:
+                t = _lin_add(cur, f)
+                if covers(t):
+                    return True
+                nxt.append(t)
+        frontier = nxt[:400]
+    return False
+
+
+def _slice_in_bounds(ev, site, lits):
+    """`buf[a..b]`, `buf[..b]`, `buf[a..]`, `buf.split_at(n)` (possibly on a slice of a slice) stay inside the buffer:
+    0 <= start <= end <= len(base), proved from the dominating comparisons and the contract of Uint::peek
+    (`peek(b) == Some(n)` implies n <= len(b)).  Plain `+`/`-` (wrapping when overflow checks are off) count as exact
+    only once x + y <= len(..) resp. y <= x has been proved from the other facts."""
+    name = site.callee[0]
+    IF = lambda t: B.int_form(t, wrap=True)
+    if name.endswith("split_at") or name.endswith("split_at_mut"):
+        whole = B.slice_form(site.args[0], True)
+        bt = strip_sites(B.peel(site.args[0]))
+        base, s0, e0 = whole if whole is not None else (bt, ("c", 0), ("len", bt))
+        st, en = s0, ("add", s0, IF(site.args[1]))
+        top = e0
+    else:
+        sf = B.slice_form(site.value, True)
+        if sf is None:
+            return None
+        base, st, en = sf
+        inner = B.slice_form(site.args[0], True)
+        top = inner[2] if inner is not None else ("len", base)
+    raw = []  # (form <= 0) facts, possibly containing wrapping nodes
+    for atom, pol in lits:
+        if atom[0] == "atom" and atom[1] == "cmp":
+            op, a, b = atom[2], atom[3], atom[4]
+            if not pol:
+                op = R._NEG[op]
+            fa, fb = IF(a), IF(b)
+            if op == "Le":
+                raw.append((("sub", fa, fb), 0))
+            elif op == "Lt":
+                raw.append((("sub", fa, fb), 1))
+            elif op == "Ge":
+                raw.append((("sub", fb, fa), 0))
+            elif op == "Gt":
+                raw.append((("sub", fb, fa), 1))
+            elif op == "Eq":
+                raw.append((("sub", fa, fb), 0))
+                raw.append((("sub", fb, fa), 0))
+    nodes = []
+    for form in [st, en, top] + [r[0] for r in raw]:
+        B.wrapping_nodes(form, nodes)
+    exact = set()
+
+    def facts_now():
+        out = []
+        for form, slack in raw:
+            l = B._lin(B.resolve_wrapping(form, exact))
+            if l is not None:
+                out.append((l[0] + slack, l[1]))
+        # peek contract: n = (peek(x) as Some).0  =>  n <= len(x)
+        for form in (st, en, top):
+            l = B._lin(B.resolve_wrapping(form, exact))
+            if l is None:
+                continue
+            for (kind, t_) in l[1]:
+                if kind == "t" and t_.op == "field" and t_.a[0].op == "downcast" and t_.a[0].a[1] == "Some":
+                    pk = t_.a[0].a[0]
+                    if pk.op == "call" and B.cname(pk) == "Uint::peek" and pk.a[1]:
+                        x = strip_sites(B.peel(pk.a[1][0]))
+                        out.append(B._lin(("sub", ("t", t_), ("len", x))))
+        return out
+
+    for _ in range(3):
+        facts = facts_now()
+        grew = False
+        for nd in nodes:
+            if nd[3] in exact:
+                continue
+            a, b = B.resolve_wrapping(nd[1], exact), B.resolve_wrapping(nd[2], exact)
+            if nd[0] == "wsub":
+                ok = prove_le0(B._lin(("sub", b, a)), facts)  # b <= a: no borrow
+            else:
+                # a + b <= some length (lengths are < 2^63): no carry
+                ok = any(prove_le0(B._lin(("sub", ("add", a, b), ("len", x[1]))), [f for f in facts]) for f in facts for x in f[1] if x[0] == "len")
+            if ok:
+                exact.add(nd[3])
+                grew = True
+        if not grew:
+            break
+    facts = facts_now()
+    g1 = B._lin(("sub", B.resolve_wrapping(st, exact), B.resolve_wrapping(en, exact)))
+    g2 = B._lin(("sub", B.resolve_wrapping(en, exact), B.resolve_wrapping(top, exact)))
+    if prove_le0(g1, facts) and prove_le0(g2, facts):
+        return ("slice-bounds", "0 <= start <= end <= len proved in the slice algebra from %d dominating comparison(s) and the Uint::peek contract" % len(facts))
+    return None
 
 
 def small_int_vars(ev, cond):
